@@ -531,7 +531,11 @@ def run(chk, ctx):
     for n in ast.walk(it_fn):
         if isinstance(n, ast.Call) and getattr(n.func, "id", None) == TAB:
             args = [ast.unparse(x) for x in n.args]
-            ok = args == ["self._max_n", "self._snapshots"]
+            # (max_n, unit count of the instance): the unit attribute is the one the planner arguments are computed from
+            unit_attrs = {ast.unparse(x) for y in ast.walk(it_fn) if isinstance(y, ast.Call) and getattr(y.func, "id", None) == MEMO
+                          and len(y.args) == 2 for x in ast.walk(y.args[1]) if isinstance(x, ast.Attribute)
+                          and isinstance(x.value, ast.Name) and x.value.id == "self"}
+            ok = len(args) == 2 and args[0] == "self._max_n" and (args[1] == "self._snapshots" or args[1] in unit_attrs)
             chk.decide("C16.ARMS", f"mixed.{owner.name}._iterator#table-size", True if ok else None,
                        f"table built as {TAB}({', '.join(args)})", rel=rel_i, node=n, nontrivial=False)
     # ---- COST (information): optimal_steps_mixed minimises over the same candidate costs
